@@ -1265,16 +1265,16 @@ impl ErasedNode for Node {
         let child1_pci_ = child1.parent_child_indices();
         let child2_pci_ = child2.parent_child_indices();
         let mut parent_pci = parent_pci_.borrow_mut();
-        let mut child1_pci = child1_pci_.borrow_mut();
-        let mut child2_pci = child2_pci_.borrow_mut();
 
         let index_of_parent_in_child1 = parent_pci.my_parent_index_in_child_at_index[child_index1 as usize];
         let index_of_parent_in_child2 = parent_pci.my_parent_index_in_child_at_index[child_index2 as usize];
-        debug_assert_eq!(child1_pci.my_child_index_in_parent_at_index[index_of_parent_in_child1 as usize], child_index1);
-        debug_assert_eq!(child2_pci.my_child_index_in_parent_at_index[index_of_parent_in_child2 as usize], child_index2);
+        // child1 and child2 may be the same node (two dependencies on one child), so their
+        // indices are never borrowed at the same time.
+        debug_assert_eq!(child1_pci_.borrow().my_child_index_in_parent_at_index[index_of_parent_in_child1 as usize], child_index1);
+        debug_assert_eq!(child2_pci_.borrow().my_child_index_in_parent_at_index[index_of_parent_in_child2 as usize], child_index2);
         /* now start swapping */
-        child1_pci.my_child_index_in_parent_at_index[index_of_parent_in_child1 as usize] = child_index2;
-        child2_pci.my_child_index_in_parent_at_index[index_of_parent_in_child2 as usize] = child_index1;
+        child1_pci_.borrow_mut().my_child_index_in_parent_at_index[index_of_parent_in_child1 as usize] = child_index2;
+        child2_pci_.borrow_mut().my_child_index_in_parent_at_index[index_of_parent_in_child2 as usize] = child_index1;
         parent_pci.my_parent_index_in_child_at_index[child_index1 as usize] = index_of_parent_in_child2;
         parent_pci.my_parent_index_in_child_at_index[child_index2 as usize] = index_of_parent_in_child1;
     }
